@@ -2,7 +2,8 @@ import Driver.Common
 import Model.Diff
 import Model.FinDiff
 import Model.IdManager
-open Lean Drv Diff
+import Model.DerivOut
+open Lean Drv Diff DerivOut
 
 partial def parseE (j : Json) : Except String (E Float) := do
   let a ← asArr j
@@ -61,6 +62,48 @@ def tableFun (n : Nat) (t : List Rec) (p : List Float) : Float × List Float × 
   | some r => (r.f, r.g, r.h)
   | none => (nan, List.replicate n nan, List.replicate n (List.replicate n nan))
 
+/-! JSON of the outputs of `Model/DerivOut.lean` -/
+def jOpt {β} (f : β → Json) : Option β → Json
+  | none => Json.null
+  | some x => f x
+
+def jNVec (d : NVec Float) : Json := jArr (d.map fun p => jArr [jStr p.1, fbits p.2])
+def jNMat (d : NMat Float) : Json := jArr (d.map fun p => jArr [jStr p.1, jNVec p.2])
+
+def jResult : Except String (Result Float) → Json
+  | .error e => Json.mkObj [("error", jStr e)]
+  | .ok (.agg o) => Json.mkObj [("kind", jStr "agg"), ("f", fbits o.f), ("g", jOpt jFloats o.g), ("h", jOpt jMat o.h), ("b", jOpt jMat o.b)]
+  | .ok (.dis o) => Json.mkObj [("kind", jStr "dis"), ("f", jFloats o.fs), ("g", jOpt jMat o.gs),
+                                ("h", jOpt (fun l => jArr (l.map jMat)) o.hs), ("b", jOpt (fun l => jArr (l.map jMat)) o.bs)]
+  | .ok (.namedAgg o) => Json.mkObj [("kind", jStr "namedAgg"), ("f", fbits o.f), ("g", jOpt jNVec o.g), ("h", jOpt jNMat o.h), ("b", jOpt jNMat o.b)]
+  | .ok (.namedDis o) => Json.mkObj [("kind", jStr "namedDis"), ("f", jFloats o.fs), ("g", jOpt (fun l => jArr (l.map jNVec)) o.gs),
+                                     ("h", jOpt (fun l => jArr (l.map jNMat)) o.hs), ("b", jOpt (fun l => jArr (l.map jNMat)) o.bs)]
+
+def parseDecls (j : Json) : Except String (List (IdM.Decl String Nat)) := do
+  (← asArr j).toList.mapM fun d => do
+    let a ← asArr d
+    match a.toList with
+    | [n, f] => pure ({ name := ← asStr n, fixed := ← asBool f, init := (0 : Nat) } : IdM.Decl String Nat)
+    | _ => throw "bad-op"
+
+def parseRows (j : Json) : Except String (List (E Float × Env Float)) := do
+  (← asArr j).toList.mapM fun r => do
+    let e ← parseE (← r.getObjVal? "expr")
+    let env ← parseEnv (← r.getObjVal? "env")
+    pure (e, env)
+
+/-- the arrays of the engine for the rows (each row with its own row-wise expanded formula) -/
+def rawOf (names : List String) (rows : List (E Float × Env Float)) (aggregation : Bool) : Raw Float :=
+  let k := names.length
+  let fs := rows.map fun (e, env) => ev env e
+  let gs := rows.map fun (e, env) => grad names env e
+  let hs := rows.map fun (e, env) => hess names env e
+  let bs := gs.map outer
+  if aggregation then
+    { f := [Num.sum fs], g := [gs.foldr (fun g acc => vadd g acc) (vzero k)],
+      h := [hs.foldr (fun h acc => madd h acc) (mzero k)], b := [bhhh k gs] }
+  else { f := fs, g := gs, h := hs, b := bs }
+
 def handle (j : Json) : Except String Json := do
   let op ← getStr j "op"
   match op with
@@ -110,6 +153,47 @@ def handle (j : Json) : Except String Json := do
     | .error dups => pure (Json.mkObj [("refused", jStrs dups)])
     | .ok t => pure (Json.mkObj [("free", jStrs t.free), ("fixed", jStrs t.fixed),
                                  ("ids", jArr (t.free.map fun n => match t.uid n with | some k => jNat k | none => Json.null))])
+  | "gvd" =>
+    -- shared id manager (declarations of ALL formulas) + get_value_and_derivatives of one formula in several modes
+    let decls ← parseDecls (← j.getObjVal? "decls")
+    let cols ← strList (← j.getObjVal? "cols")
+    match IdM.prepare decls [] [] cols with
+    | .error dups => pure (Json.mkObj [("refused", jStrs dups)])
+    | .ok t =>
+      let rows ← parseRows (← j.getObjVal? "rows")
+      let outs ← (← getArr j "modes").toList.mapM fun m => do
+        let fl : Flags := { gradient := ← getBool m "gradient", hessian := ← getBool m "hessian", bhhh := ← getBool m "bhhh" }
+        let agg ← getBool m "aggregation"
+        let hasDb ← getBool m "database"
+        let named ← getBool m "named"
+        pure (jResult (getValueAndDerivatives t.free fl agg hasDb named (rawOf t.free rows agg)))
+      pure (Json.mkObj [("names", jStrs t.free), ("mapping", jArr ((indices t.free).map fun p => jArr [jStr p.1, jNat p.2])),
+                        ("outs", jArr outs)])
+  | "objective" =>
+    -- create_function / create_objective_function at a positional point (one formula, rows = data environments)
+    let names ← strList (← j.getObjVal? "names")
+    let e ← parseE (← j.getObjVal? "expr")
+    let envs ← (← getArr j "envs").toList.mapM parseEnv
+    let x ← floatList (← j.getObjVal? "x")
+    let jE {β} (f : β → Json) : Except String β → Json := fun r => match r with
+      | .error er => Json.mkObj [("error", jStr er)]
+      | .ok v => f v
+    let j3 : Float × Option (List Float) × Option (List (List Float)) → Json :=
+      fun (f, g, h) => Json.mkObj [("f", fbits f), ("g", jOpt jFloats g), ("h", jOpt jMat h)]
+    let fl : Flags := { gradient := ← getBool j "gradient", hessian := ← getBool j "hessian", bhhh := ← getBool j "bhhh" }
+    pure (Json.mkObj [("f", jE fbits (objF names envs e x)), ("fg", jE j3 (objFG names envs e x)),
+                      ("fgh", jE j3 (objFGH names envs e x)),
+                      ("fn", jResult ((myFunction names envs e fl x).map .namedAgg)),
+                      ("bad", jResult ((myFunction names envs e fl (x ++ [0.5])).map .namedAgg))])
+  | "unpack" =>
+    let k ← getNat j "n"
+    let o : Agg Float := ⟨1.0, some [2.0], none, none⟩
+    let (r, p) := Proxy.iter ⟨o, false⟩
+    let st := fun (r : Except String (Float × Option (List Float) × Option (List (List Float)) × Option (List (List Float)))) =>
+      match r with
+      | .ok (f, g, h, b) => jArr [fbits f, jOpt jFloats g, jOpt jMat h, jOpt jMat b]
+      | .error e => jStr e
+    pure (Json.mkObj [("first", st r), ("later", jArr ((p.iters k).1.map st))])
   | _ => throw "bad-op"
 
 def main : IO Unit := Drv.run handle
